@@ -220,7 +220,7 @@ CHECKS = {
              "and above the window) that every in-window descriptor has its own slot inside the table and that nothing outside the window "
              "reaches the table, and FINDS the counterexamples of four named deviations (16-byte alignment, capped shift, the decoder's "
              "missing lower bound before fix 4477a51, table one slot short); TypeCache.tla's deviation SharedSlot shows that a shared slot "
-             "returns another type's program. Binding: a generated worker binary with 1000/3000 families x 12 named and unnamed types plus "
+             "returns another type's program. Binding: a generated worker binary with 1000/3000 families x 14 named, unnamed and same-named local types plus "
              "reflect-created types, built from /repo as production, -race and position-independent executable, encodes and decodes every "
              "type cold in seeded orders against encoding/json, and TLC validates every recorded return of CompileToGetCodeSet / "
              "CompileToGetDecoder against TypeCacheTrace.tla (guard, index arithmetic, bound, own type, one type per slot, one type per program).",
